@@ -19,7 +19,6 @@ var laManual = map[string]string{
 	"internal/operators.(*indexedMatcher).matchCI|s[slice-lo=((*i - m.minLen) + 1)]":                                       "Horspool window: i starts at minLen-1 and only increases, the upper bound pos+nlen<=len(s) is tested",
 	"internal/operators.(*indexedMatcher).matchCS|s[slice-lo=((*i - m.minLen) + 1)]":                                       "Horspool window: i starts at minLen-1 and only increases, the upper bound pos+nlen<=len(s) is tested",
 	"internal/operators.(*restpath).Evaluate|o.re.FindStringSubmatch(value)[(*rangeindex + 1)]":                            "regexp API: a non-empty FindStringSubmatch result has len == len(SubexpNames())",
-	"internal/operators.(*rx).Evaluate|o.re.FindStringSubmatchIndex(value)[((2 * *i) + 1)]":                                "loop bound i < len(match)/2 implies 2i+1 < len(match)",
 	"internal/seclang.(*RuleParser).ParseOperator|strings.TrimSpace(strings.Cut(OPERATOR,\" \")#0)[0]":                     "the normalising switch makes the operator start with '@' or '!', so the part before the first blank is not empty",
 	"internal/seclang.(*RuleParser).ParseOperator|strings.TrimSpace(strings.Cut(OPERATOR,\" \")#0)[slice-lo=1]":            "same as above",
 	"internal/corazarules.(MatchedRule).ErrorLog|mr.MatchedDatas_[0]":                                                      "MatchRule is only reached with a non-empty match list (doEvaluate returns early on no match; SecAction synthesises one datum)",
